@@ -125,6 +125,7 @@ func storeTo(m, obj, off *Term, v Val) *Term {
 }
 
 func (tr *FnTr) store(obj, off *Term, v Val) {
+	tr.writeCheck(obj, off, Add(off, Int(int64(sizeOf(v.T)))))
 	tr.st.Mem = tr.vc.Def("mem", storeTo(tr.st.Mem, obj, off, v))
 }
 
